@@ -40,6 +40,9 @@ CONDS = {
     'ne1': (dict(not_equals=[{'a': 1}]), lambda r: r['a'] != 1),
     'ne2': (dict(not_equals=[{'a': 1}, {'b': 2}]), lambda r: r['a'] != 1 or r['b'] != 2),
     'both': (dict(equals=[{'a': 1}], not_equals=[{'b': 2}]), lambda r: r['a'] == 1 or r['b'] != 2),
+    'eq-same-field': (dict(equals=[{'a': 1}, {'a': 2}]), lambda r: r['a'] == 1 or r['a'] == 2),
+    'ne-same-field': (dict(not_equals=[{'b': 1}, {'b': 2}]), lambda r: r['b'] != 1 or r['b'] != 2),
+    'eq-ne-same-field': (dict(equals=[{'a': None}, {'a': 1}], not_equals=[{'a': 1}]), lambda r: r['a'] is None or r['a'] == 1 or r['a'] != 1),
     'callable-false': (dict(condition=lambda row: False), lambda r: False),
 }
 
@@ -179,7 +182,7 @@ def cases(tier):
                 out.append({'proc': 'dedup', 'rows': [list(r) for r in rows], 'pk': pk})
     maxrows = 3 if tier == 'quick' else 4
     for rows in tables(maxrows):
-        conds = list(CONDS) if len(rows) <= 3 else ['eq2', 'both', 'ne2']
+        conds = list(CONDS) if len(rows) <= 3 else ['eq2', 'both', 'ne2', 'eq-same-field']
         for c in conds:
             out.append({'proc': 'filter', 'rows': rows, 'cond': c})
         for pk in ([], ['a'], ['a', 'b'], ['b', 'a']):
